@@ -1,13 +1,15 @@
 """Re-run the registered checks against seeded changes already filed under /verif/seeded (patch applied to /repo and
 undone straight afterwards) and refresh detected_by / checks_run in their meta.json.
 
-usage: redetect.py <seed-id> ...      e.g. redetect.py C01-7 C13-8"""
+usage: redetect.py <seed-id> ...      e.g. redetect.py C01-7 C13-8
+env REDETECT_SCRATCH=1: development only -- the checks run against a scratch worktree (PEGEN_REPO) while /repo is busy; nothing
+is written to meta.json or the evidence directory (the authoritative pass is the one that applies the patch to /repo)"""
 import json, pathlib, re, shutil, subprocess, sys
 
 VERIF = pathlib.Path("/verif")
 import os
 FIRST_ONLY = os.environ.get("REDETECT_FIRST_ONLY") == "1"
-EXTRA = {"C14": ["C14", "C07"], "C07": ["C07", "C14"], "C09": ["C09", "C18"], "C03": ["C03", "C19", "C01", "C10"], "C19": ["C19", "C03"],
+EXTRA = {"C14": ["C14", "C07"], "C07": ["C07", "C14", "C10"], "C09": ["C09", "C18"], "C03": ["C03", "C19", "C01", "C10"], "C19": ["C19", "C03"],
          "C11": ["C11", "C10"], "C16": ["C16", "C02", "C10"], "C02": ["C02", "C16", "C03"], "C01": ["C01", "C10", "C11", "C15"],
          "C13": ["C13", "C10"], "C04": ["C04", "C03"], "C05": ["C05", "C11", "C14"], "C15": ["C15", "C10"], "C17": ["C17", "C13", "C10"],
          "C18": ["C18", "C09"], "C12": ["C12", "C10"], "C08": ["C08", "C10"], "C10": ["C10", "C11"]}
@@ -16,6 +18,30 @@ EXTRA = {"C14": ["C14", "C07"], "C07": ["C07", "C14"], "C09": ["C09", "C18"], "C
 def sh(cmd, **kw):
     return subprocess.run(cmd, shell=True, capture_output=True, text=True, **kw)
 
+
+SCRATCH = os.environ.get("REDETECT_SCRATCH") == "1"
+if SCRATCH:
+    WT = pathlib.Path(f"/tmp/seedchk/rd-{os.getpid()}")
+    sh(f"git -C /repo worktree add --detach {WT} HEAD")
+    ENV = dict(os.environ, PEGEN_REPO=str(WT), PYTHONPATH=f"{WT}/src:{VERIF}/harness", PYTHONHASHSEED="0", PYTHONDONTWRITEBYTECODE="1",
+               VERIF_EVIDENCE_DIR=f"/tmp/seedchk/ev-rd-{os.getpid()}")
+    for sid in sys.argv[1:]:
+        d = VERIF / "seeded" / sid
+        pid = sid[:3]
+        sh(f"git -C {WT} reset -q --hard HEAD")
+        a = sh(f"git -C {WT} apply {d / 'patch.diff'}")
+        if a.returncode:
+            print(sid, "PATCH DOES NOT APPLY", a.stderr[-200:], flush=True)
+            continue
+        caught = []
+        for cid in EXTRA.get(pid, [pid]):
+            r = sh(f"/venv/bin/python harness/run_check.py {cid} --tier quick", cwd=VERIF, env=ENV)
+            if r.returncode == 1 and "VIOLATION" in r.stdout:
+                caught.append(cid)
+                break
+        print(sid, "detected by (scratch):", caught, flush=True)
+    sh(f"git -C /repo worktree remove --force {WT}")
+    sys.exit(0)
 
 for sid in sys.argv[1:]:
     d = VERIF / "seeded" / sid
